@@ -147,7 +147,7 @@ def _worker_chunk(args):
     return out
 
 
-def run_batch(profile, base_seed, tier, n_runs, jobs, wall_cap_s, n_samples=3, chunk=20):
+def run_batch(profile, base_seed, tier, n_runs, jobs, wall_cap_s, n_samples=3, chunk=20, stop_on_first=False):
     """Runs indices 0..n_runs-1 (fewer if the wall cap stops submission).  Returns merged results
     in index order so that the verdict does not depend on the number of workers."""
     t0 = time.time()
@@ -162,6 +162,8 @@ def run_batch(profile, base_seed, tier, n_runs, jobs, wall_cap_s, n_samples=3, c
                 capped = True
                 break
             results[ci] = _worker_chunk((profile.prop, base_seed, tier, c, n_samples))
+            if stop_on_first and results[ci]["violations"]:
+                break
     else:
         ctx = multiprocessing.get_context("fork")
         with ProcessPoolExecutor(max_workers=jobs, mp_context=ctx) as ex:
@@ -171,6 +173,8 @@ def run_batch(profile, base_seed, tier, n_runs, jobs, wall_cap_s, n_samples=3, c
             def submit_more():
                 nonlocal submitted, capped
                 while len(pending) < jobs * 2:
+                    if stop_on_first and any(r["violations"] for r in results.values()):
+                        return
                     if time.time() - t0 > wall_cap_s:
                         capped = True
                         return
